@@ -12,6 +12,24 @@ inductive CErr
 
 abbrev CRes (α : Type) := Except CErr α
 
+/-- the regexes (and their named groups) the lexer/parser use: `Rx.live` is regenerated from /repo
+on every run, `Rx.baseline` is the frozen copy taken from the unchanged tree (used only to decide
+whether a failing case is an instance of a *recorded* known finding). -/
+structure Rx where
+  xmlSpe : Re
+  tagPrefixName : Re
+  singleAttr : Re
+  pi : Re
+  doubleHyphen : Re
+  tagGroups : List (String × Nat)
+  attrGroups : List (String × Nat)
+  piGroups : List (String × Nat)
+
+def Rx.live : Rx :=
+  { xmlSpe := Gen.XML_SPE, tagPrefixName := Gen.TAG_PREFIX_NAME, singleAttr := Gen.SINGLE_ATTR, pi := Gen.PI,
+    doubleHyphen := Gen.DOUBLE_HYPHEN, tagGroups := Gen.TAG_PREFIX_NAME_groups,
+    attrGroups := Gen.SINGLE_ATTR_groups, piGroups := Gen.PI_groups }
+
 def grpSpan (groups : List (String × Nat)) (st : St) (name : String) : Option (Nat × Nat) :=
   match groups.find? (·.1 == name) with
   | none => none
@@ -50,8 +68,8 @@ structure Tag where
 
 def emptyTok (pos : Nat) : Tok := { str := [], pos := pos }
 
-def mkAttr (rest : Tok) (st : St) : Attr :=
-  let g := tokGroup Gen.SINGLE_ATTR_groups st rest
+def mkAttr (rx : Rx) (rest : Tok) (st : St) : Attr :=
+  let g := tokGroup rx.attrGroups st rest
   let space := (g "space").getD (emptyTok 0)
   let name := (g "name").getD (emptyTok 0)
   match g "alt_value" with
@@ -63,14 +81,14 @@ def mkAttr (rest : Tok) (st : St) : Attr :=
                 value := (g "value").getD (emptyTok 0) }
 
 /-- `match_tag(token)`; `none` = the prefix/name regex did not match (`AttributeError` in the code) -/
-def matchTagWith (rTag rAttr : Re) (t : Tok) : Option Tag :=
-  match matchAt Gen.uni t.str.toArray rTag 0 with
+def matchTagWith (rx : Rx) (t : Tok) : Option Tag :=
+  match matchAt Gen.uni t.str.toArray rx.tagPrefixName 0 with
   | none => none
   | some st =>
-    let g := tokGroup Gen.TAG_PREFIX_NAME_groups st t
+    let g := tokGroup rx.tagGroups st t
     let rest := t.slice st.pos none
-    let ms := finditer Gen.uni rest.str.toArray rAttr
-    let attrs := ms.map (fun (_, sa) => mkAttr rest sa)
+    let ms := finditer Gen.uni rest.str.toArray rx.singleAttr
+    let attrs := ms.map (fun (_, sa) => mkAttr rx rest sa)
     let suffix := match ms.getLast? with
       | some (_, sa) => some (rest.slice sa.pos none)
       | none => g "suffix"
@@ -78,7 +96,7 @@ def matchTagWith (rTag rAttr : Re) (t : Tok) : Option Tag :=
            suffix := suffix, space := g "space", attrs := attrs,
            spans := ms.map (fun (a, sa) => (a, sa.pos)), restLen := rest.str.length }
 
-def matchTag (t : Tok) : Option Tag := matchTagWith Gen.TAG_PREFIX_NAME Gen.SINGLE_ATTR t
+def matchTag (t : Tok) : Option Tag := matchTagWith Rx.live t
 
 def Attr.text (a : Attr) : Str := a.space.str ++ a.name.str ++ a.eq.str ++ a.quote.str ++ a.value.str ++ a.quote.str
 
@@ -119,12 +137,12 @@ inductive Kind | text | comment | cdata | declaration | xmlDecl | pi | endTag | 
 def lit (s : String) : Str := Str.ofString s
 
 /-- `identify(string)` -/
-def identify (t : Tok) : CRes Kind :=
+def identify (rx : Rx) (t : Tok) : CRes Kind :=
   let s := t.str
   if startsWith s (lit "<") then
     if startsWith s (lit "<!--") then
       let body := s.drop 4
-      match search Gen.uni body.toArray Gen.DOUBLE_HYPHEN with
+      match search Gen.uni body.toArray rx.doubleHyphen with
       | some (a, st) => .error (.template "ParseError" "The string '--' is not allowed in a comment."
           { str := (body.drop a).take (st.pos - a), pos := t.pos + 4 + a })
       | none => .ok .comment
@@ -181,8 +199,8 @@ def unpackAttributes (attrs : List Attr) (m : NsMap) (default : Str) (restricted
     | none => pure (odSet d (default, a.name.str) a.value)) []
 
 /-- `parse_tag(token, namespace, restricted)`; returns the element record and the updated namespace map -/
-def parseTag (t : Tok) (m : NsMap) (restricted : Bool) : CRes (Elem × NsMap) :=
-  match matchTag t with
+def parseTag (rx : Rx) (t : Tok) (m : NsMap) (restricted : Bool) : CRes (Elem × NsMap) :=
+  match matchTagWith rx t with
   | none => .error (.crash "AttributeError")
   | some g => do
     let m' := updateNamespace g.attrs m
@@ -211,8 +229,8 @@ def popIndex (name : Str) : List (Str × Nat) → Option (Nat × List (Str × Na
   | [] => none
   | (n, pos) :: rest => if n = name then some (pos, rest) else popIndex name rest
 
-def parseToken (restricted : Bool) (ps : PState) (t : Tok) : CRes PState := do
-  let kind ← identify t
+def parseToken (rx : Rx) (restricted : Bool) (ps : PState) (t : Tok) : CRes PState := do
+  let kind ← identify rx t
   let push (it : Item) : PState := { ps with queue := ps.queue.push it }
   match kind with
   | .comment => pure (push (.comment t))
@@ -220,21 +238,21 @@ def parseToken (restricted : Bool) (ps : PState) (t : Tok) : CRes PState := do
   | .text => pure (push (.text t))
   | .declaration | .error => pure (push (.dflt t))
   | .pi =>
-    match matchAt Gen.uni t.str.toArray Gen.PI 0 with
+    match matchAt Gen.uni t.str.toArray rx.pi 0 with
     | none => pure (push (.dflt t))
     | some st =>
-      let g := tokGroup Gen.PI_groups st t
+      let g := tokGroup rx.piGroups st t
       pure (push (.pi ((g "name").getD (emptyTok 0)) ((g "text").getD (emptyTok 0))))
   | .startTag =>
     let top := ps.namespaces.headD []
-    let (e, m') ← parseTag t top restricted
+    let (e, m') ← parseTag rx t top restricted
     pure { queue := ps.queue.push (.startTag e), index := (e.tag.name.str, ps.queue.size) :: ps.index,
            namespaces := m' :: ps.namespaces }
   | .endTag =>
     match ps.namespaces with
     | [] => .error (.template "ParseError" "Unexpected end tag." t)
     | top :: restNs =>
-      let (e, _) ← parseTag t top restricted
+      let (e, _) ← parseTag rx t top restricted
       match popIndex e.tag.name.str ps.index with
       | none => .error (.template "ParseError" "Unexpected end tag." t)
       | some (pos, idx') =>
@@ -245,7 +263,7 @@ def parseToken (restricted : Bool) (ps : PState) (t : Tok) : CRes PState := do
         | _ => .error (.crash "ValueError")
   | .emptyTag | .xmlDecl =>
     let top := ps.namespaces.headD []
-    let (e, _) ← parseTag t top restricted
+    let (e, _) ← parseTag rx t top restricted
     pure (push (.element e none []))
 
 def defaultNamespaces : NsMap := [
@@ -256,8 +274,8 @@ def defaultNamespaces : NsMap := [
   (some (lit "meta"), lit "http://xml.zope.org/namespaces/meta")]
 
 /-- `ElementParser(tokens, DEFAULT_NAMESPACES, restricted).__iter__()` -/
-def parseTokens (restricted : Bool) (toks : List Tok) : CRes (List Item) := do
-  let ps ← toks.foldlM (parseToken restricted) { queue := #[], index := [], namespaces := [defaultNamespaces] }
+def parseTokens (rx : Rx) (restricted : Bool) (toks : List Tok) : CRes (List Item) := do
+  let ps ← toks.foldlM (parseToken rx restricted) { queue := #[], index := [], namespaces := [defaultNamespaces] }
   pure ps.queue.toList
 
 end ChamVerif
